@@ -146,6 +146,13 @@ def run_check(prop, tier, seed):
         wt = open(wf).read()
         cov["non_vacuity_examples"] = len(re.findall(r"^(?:Example|Goal)\b", wt, flags=re.M))
     n_obl = len(thms) + 2        # + the two correspondence relations (agree, spec on impl trace)
+    if tier == "thorough":
+        # independent re-check of the compiled theorems and of everything they depend on
+        okc, info = vlib.coqchk(prop.props_module)
+        if not okc:
+            return fail_tie(prop, tier, seed, t0, "coqchk does not accept the compiled development", str(info), cov)
+        cov["coqchk"] = info
+        cov["checker_cmd"] += " && coqchk -o -silent -Q . SV SV.%s" % prop.props_module
     # ---- 2. harness from the current working tree
     ok, log = vlib.build_harness()
     if not ok:
